@@ -36,7 +36,7 @@ TOL = 1e-9
 
 SITE_SE_MODE = "WeightedProbabilityBasedSquaredError._set_weights_by_mode"
 SITE_SE_FAST = "StandardQTomographyBasedWeightedProbabilityBasedSquaredError._calc_extend_weight_matrix"
-SITE_RE_MODE = "WeightedRelativeEntropy._sets_weight_by_mode"
+SITE_RE_MODE = "WeightedRelativeEntropy._set_weights_by_mode"
 SITE_RE_FAST = "StandardQTomographyBasedWeightedRelativeEntropy._calc_extend_weights"
 MODES = {0: "identity", 1: "custom", 2: "inverse_sample_covariance", 3: "inverse_unbiased_covariance",
          4: "unbiased_inverse_covariance"}
@@ -401,14 +401,23 @@ def se_option(step, mm, ns, fast):
 
 
 def parse_config(r, ns, mm):
-    i = 0
+    """-> (held option id or -1, W, E)"""
+    held = int(r[0]); i = 1
     hw = int(r[i]); i += 1
     W = None
     if hw:
         W = r[i:i + ns * mm * mm]; i += ns * mm * mm
     he = int(r[i]); i += 1
     E = r[i:] if he else None
-    return W, E
+    return held, W, E
+
+
+def held_oid(obj, opts):
+    """identity (oid) of the option object the loss currently holds, -1 if none of this history's objects"""
+    for oid, o in opts.items():
+        if obj.option is o:
+            return oid
+    return -1
 
 
 def same(impl, mod, tol=1e-7):
@@ -449,12 +458,15 @@ def chk_se_qt(ctx, case):
     v = np.array(case["v"], dtype=np.float64); h = np.array(case["h"], dtype=np.float64)
     G = WeightedProbabilityBasedSquaredError(nv)
     Fs = StandardQTomographyBasedWeightedProbabilityBasedSquaredError(nv)
+    gopts = {}; fopts = {}            # option OBJECTS of this history by identity: steps with the same oid hand in the same object
     w = quiet()
     try:
         for k, step in enumerate(case["steps"]):
             mode = step["mode"]
+            oid = step.get("oid", k)   # (replays written before option identities existed: a new object per step)
             key = ("seqt", case["exp"], k, tuple(case["v"]), tuple(step["q"]), mode, tuple(s["mode"] for s in case["steps"][:k]))
-            label = "%s-%s-%s" % (case["exp"].split("-")[0], MODES.get(mode, "setter"), "fresh" if k == 0 else "reused")
+            label = "%s-%s-%s%s" % (case["exp"].split("-")[0], MODES.get(mode, "setter"), "fresh" if k == 0 else "reused",
+                                    "" if step.get("opt", "new") == "new" else "-%s-option-%s-data" % (step["opt"], step.get("dat", "new")))
             data = [(int(step["nd"][j]), np.array(step["q"][j * mm:(j + 1) * mm], dtype=np.float64)) for j in range(ns)]
             spec = spec_weights(m, ns, mm, step)
             if spec[0] == "err":
@@ -465,21 +477,27 @@ def chk_se_qt(ctx, case):
             has_k = 1 if mode in (2, 3, 4) else 0
             stepq = (list(step["custom"]) if has_c else []) + (list(spec[1]) if has_k else [])
             try:
-                opts = [None, None] if mode == 5 else [se_option(step, mm, ns, False), se_option(step, mm, ns, True)]
+                if mode != 5 and oid not in gopts:
+                    go = se_option(step, mm, ns, False); fo = se_option(step, mm, ns, True)
+                    gopts[oid] = go; fopts[oid] = fo
+                opts = [None, None] if mode == 5 else [gopts[oid], fopts[oid]]
             except ValueError:
                 # the option class no longer accepts this mode: nothing to take effect
                 ctx.count("se_qt", key=key, nontrivial=False, label=label + "-mode-rejected-by-option")
                 if mode != 4:
                     viol("WeightedProbabilityBasedSquaredErrorOption", "model-mismatch:option", "mode %s rejected by the option class" % MODES.get(mode), case)
                 continue
-            raised = []; mism = []; prev_gw = None
+            raised = []; mism = []; prev_gw = None; same_object = False
             for obj, fast, opt in ((G, False, opts[0]), (Fs, True, opts[1])):
                 w0, e0 = se_state(obj, fast)
+                held0 = held_oid(obj, fopts if fast else gopts)
                 if not fast:
                     prev_gw = w0
-                r_c = m.call("c12.config_from", [1 if fast else 0, ns, mm, 0 if w0 is None else 1, 0 if e0 is None else 1, mode, has_c, has_k],
+                    same_object = mode != 5 and held0 == oid          # the loss is handed the option object it already holds
+                r_c = m.call("c12.config_from", [1 if fast else 0, ns, mm, 0 if w0 is None else 1, 0 if e0 is None else 1, held0,
+                                                 mode, max(oid, 0), has_c, has_k],
                              (w0 or []) + (e0 or []) + stepq)
-                Wc, Ec = parse_config(r_c, ns, mm)
+                held_c, Wc, Ec = parse_config(r_c, ns, mm)
                 try:
                     if mode == 5:
                         ws = None if step.get("custom") is None else [np.array(step["custom"][j * mm * mm:(j + 1) * mm * mm], dtype=np.float64).reshape(mm, mm) for j in range(ns)]
@@ -491,6 +509,8 @@ def chk_se_qt(ctx, case):
                     raised.append("%s class: ValueError: %s" % ("fast" if fast else "generic", str(exc)[:160]))
                     continue
                 w1, e1 = se_state(obj, fast)
+                if held_oid(obj, fopts if fast else gopts) != held_c:
+                    mism.append("%s-held-option" % ("fast" if fast else "generic"))
                 if not same(w1, Wc):
                     mism.append("%s-weights" % ("fast" if fast else "generic"))
                 if fast and not same(e1, Ec):
@@ -535,7 +555,9 @@ def chk_se_qt(ctx, case):
             ok_g = rel_close(g_val, sv, 1e-6) and vec_close(g_grad, sg, 1e-6) and vec_close(fl(g_hess), sh, 1e-6)
             if not ok_g:
                 unchanged = same(gw, prev_gw)               # the call left the weights as they were
-                if mode == 0 and unchanged and gw is not None:
+                if same_object and unchanged and mode in (1, 2, 3, 4):
+                    sig = "same-option-object-weights-not-recomputed-for-current-data"
+                elif mode == 0 and unchanged and gw is not None:
                     sig = "identity-mode-keeps-previous-weights"
                 elif mode == 4 and unchanged:
                     sig = "alias-mode-unbiased_inverse_covariance-ignored"
@@ -544,7 +566,8 @@ def chk_se_qt(ctx, case):
                 else:
                     sig = "value-neq-formula"
                 viol(SITE_SE_MODE, sig,
-                     "step %d (%s, %s): generic value %r but the formula with the weights this mode denotes gives %r" % (k, MODES.get(mode), "fresh" if k == 0 else "reused", g_val, float(sv)), case)
+                     "step %d (%s, %s%s): generic value %r but the formula with the weights this mode denotes for the CURRENT data gives %r" % (
+                         k, MODES.get(mode), "fresh" if k == 0 else "reused", ", same option object as held" if same_object else "", g_val, float(sv)), case)
             if not (rel_close(f_val, g_val, 1e-7) and vec_close(f_grad, g_grad, 1e-7)):
                 viol(SITE_SE_FAST, "extended-weights-stale" if "fast-cached-extension" in mism else "fast-neq-generic",
                      "step %d (%s, %s object): fast value %r, generic value %r for identical data / weights / mode (formula: %r)" % (
@@ -585,7 +608,44 @@ WITNESS_SE = [
     {"exp": "qst-2-T", "modes": [2, 0]},           # ... identity after an inverse mode
     {"exp": "qst-2-T", "modes": [1, 5]},           # setter after configuration
     {"exp": "qst-2-T", "modes": [0, 5, 0]},        # setter on an unweighted configured object, then identity again
+    # option-object re-use (seeded change C12-2; LossMinimizationEstimator.calc_estimate_sequence hands ONE option object to
+    # every data set of a sequence): the weights must be those of the CURRENT data
+    {"exp": "qst-2-T", "plan": [2, (2, "same", "new")]},
+    {"exp": "qst-2-F", "plan": [3, (3, "same", "new"), (3, "same", "same")]},
+    {"exp": "povmt-3-F", "plan": [4, (4, "same", "new")]},
+    {"exp": "qst-4-F", "plan": [2, (2, "same", "new"), (2, "equal", "new")]},
+    {"exp": "qpt-2-T", "plan": [2, 5, (2, "same", "same")]},       # setter in between, then the same object and the same data again
+    {"exp": "qst-2-F", "plan": [1, 5, (1, "same", "new")]},        # custom, setter, the same custom option object again
+    {"exp": "qmpt-2-T", "plan": [3, (3, "equal", "new")]},
 ]
+
+
+def build_se_steps(rng, e, plan):
+    """plan entries: mode | (mode, opt, dat) with opt in new / same (the SAME option object as the last configuration step) /
+    equal (a distinct object with the same mode and weights), dat in new / same (the data of the last configuration step)"""
+    steps = []; last = None; next_oid = 0
+    for p in plan:
+        mode, opt, dat = (p, "new", "new") if isinstance(p, int) else tuple(p)
+        if opt in ("same", "equal") and last is not None:
+            st = gen_step(rng, e, last["mode"]); st["custom"] = None if last["custom"] is None else list(last["custom"])
+            if dat == "same":
+                st["nd"] = list(last["nd"]); st["q"] = list(last["q"])
+            if opt == "same":
+                st["oid"] = last["oid"]
+            else:
+                st["oid"] = next_oid; next_oid += 1
+        else:
+            opt, dat = "new", "new"
+            st = gen_step(rng, e, mode)
+            if mode == 5:
+                st["oid"] = -1
+            else:
+                st["oid"] = next_oid; next_oid += 1
+        st["opt"] = opt; st["dat"] = dat
+        if st["mode"] != 5:
+            last = st
+        steps.append(st)
+    return steps
 
 
 def gen_se_qt(ctx, n):
@@ -595,12 +655,19 @@ def gen_se_qt(ctx, n):
     plans = [dict(w) for w in WITNESS_SE]
     for i in range(n):
         name = exps[i % len(exps)]
-        L = rng.choice([1, 1, 2, 3])
-        # the plain setter (5) only on an already configured object
-        plans.append({"exp": name, "modes": [rng.choice([0, 1, 1, 2, 3, 4] + ([5] if t > 0 else [])) for t in range(L)]})
+        L = rng.choice([1, 2, 2, 3])
+        plan = []
+        for t in range(L):
+            if t > 0 and rng.random() < 0.45:
+                # re-use of option objects: what LossMinimizationEstimator.calc_estimate_sequence does for every data set
+                plan.append((0, rng.choice(["same", "same", "equal"]), "same" if rng.random() < 0.25 else "new"))
+            else:
+                # the plain setter (5) only on an already configured object
+                plan.append(rng.choice([0, 1, 1, 2, 2, 3, 3, 4] + ([5] if t > 0 else [])))
+        plans.append({"exp": name, "plan": plan})
     for pl in plans:
         e = get_exp(pl["exp"])
-        c = {"exp": pl["exp"], "steps": [gen_step(rng, e, md) for md in pl["modes"]],
+        c = {"exp": pl["exp"], "steps": build_se_steps(rng, e, pl.get("plan", pl.get("modes"))),
              "v": rand_point(rng, e, rng.random() < 0.5), "h": [dy(rng, -1, 1, 16) for _ in range(e["nv"])]}
         cases.append(c)
     return cases
@@ -734,23 +801,30 @@ def chk_re_qt(ctx, case):
     G = WeightedRelativeEntropy(nv, weights=None if ctor_w is None else list(ctor_w))
     Fs = StandardQTomographyBasedWeightedRelativeEntropy(nv, weights=None if ctor_w is None else list(ctor_w))
     p = e["A"] @ v + e["b"]
+    gopts = {}; fopts = {}            # option OBJECTS of this history by identity (same oid = same object handed in again)
     wq = quiet()
     try:
         for k, step in enumerate(case["steps"]):
             q = list(step["q"])
+            oid = step.get("oid", k)
             data = [(int(step["nd"][j]), np.array(q[j * mm:(j + 1) * mm], dtype=np.float64)) for j in range(ns)]
             ws = step.get("w")
             kind = step["kind"]          # "option" | "setter"
             w0f, ew0f = re_state(Fs)
+            held0 = held_oid(Fs, fopts)
             # model of the code (repaired), from the fast object's own state before the call
-            r = m.call("c12.config_re_from", [ns, mm, 0 if w0f is None else 1, 0 if ew0f is None else 1,
-                                               1 if kind == "option" else 2, 0 if ws is None else 1, 0 if ws is None else 1],
+            r = m.call("c12.config_re_from", [ns, mm, 0 if w0f is None else 1, 0 if ew0f is None else 1, held0,
+                                               1 if kind == "option" else 2, max(oid, 0), 0 if ws is None else 1, 0 if ws is None else 1],
                        (w0f or []) + (ew0f or []) + ([] if ws is None else list(ws)))
+            held_c = int(r[0]); r = r[1:]
             hw = int(r[0]); mw = r[1:1 + ns] if hw else None
             sel = int(r[1 + (ns if hw else 0)]); mew = r[2 + (ns if hw else 0):] if sel == 1 else None
             if kind == "option":
-                G.set_from_standard_qtomography_option_data(qt, WeightedRelativeEntropyOption("identity" if ws is None else "custom", weights=None if ws is None else list(ws)), data, True, True)
-                Fs.set_from_standard_qtomography_option_data(qt, StandardQTomographyBasedWeightedRelativeEntropyOption("identity" if ws is None else "custom", weights=None if ws is None else list(ws)), data, True, False)
+                if oid not in gopts:
+                    gopts[oid] = WeightedRelativeEntropyOption("identity" if ws is None else "custom", weights=None if ws is None else list(ws))
+                    fopts[oid] = StandardQTomographyBasedWeightedRelativeEntropyOption("identity" if ws is None else "custom", weights=None if ws is None else list(ws))
+                G.set_from_standard_qtomography_option_data(qt, gopts[oid], data, True, True)
+                Fs.set_from_standard_qtomography_option_data(qt, fopts[oid], data, True, False)
             else:
                 G.set_prob_dists_q([d[1] for d in data]); Fs.set_prob_dists_q([d[1] for d in data])
                 G.set_weights(None if ws is None else list(ws)); Fs.set_weights(None if ws is None else list(ws))
@@ -758,7 +832,8 @@ def chk_re_qt(ctx, case):
             band = in_band(fl(p), q)
             inside = min(fl(p)) > 0.05
             ctx.count("re_qt", key=("reqt", case["exp"], k, tuple(case["v"]), tuple(q), kind, None if ws is None else tuple(ws)),
-                      nontrivial=not band, label="%s-%s-%s-%s%s" % (case["exp"].split("-")[0], kind, "w" if ws is not None else "I", "inside" if inside else "outside", "-inband" if band else ""))
+                      nontrivial=not band, label="%s-%s-%s-%s%s%s" % (case["exp"].split("-")[0], kind, "w" if ws is not None else "I", "inside" if inside else "outside", "-inband" if band else "",
+                                                                      "" if step.get("opt", "new") == "new" else "-%s-option" % step["opt"]))
             gw, _ = re_state(G); fw, few = re_state(Fs)
             if not gw:
                 gw = None
@@ -768,6 +843,8 @@ def chk_re_qt(ctx, case):
                 f_err = "AttributeError"; f_val = None; f_grad = None
             # ---- object state after the call vs the model of the code
             mism = []
+            if held_oid(Fs, fopts) != held_c:
+                mism.append("fast-held-option %d, model %d" % (held_oid(Fs, fopts), held_c))
             if not same(gw, spec_w, 1e-12):
                 mism.append("generic-weights %s, model %s" % (gw, spec_w))
             if not same(fw, mw, 1e-12):
@@ -843,24 +920,50 @@ WITNESS_RE = [
     {"exp": "qst-2-T", "ctor": True, "steps": [("option", False)]},                       # identity option on an object with constructor weights
     {"exp": "qst-2-T", "ctor": False, "steps": [("option", False), ("setter", True)]},    # setter on a configured fast object
     {"exp": "qst-2-T", "ctor": True, "steps": [("option", False), ("setter", True)]},     # stale extend weights
+    # option-object re-use: after a direct set_weights the SAME option object must take effect again
+    {"exp": "qst-2-T", "ctor": False, "steps": [("option", True), ("setter", True), ("option", None, "same")]},
+    {"exp": "povmt-3-F", "ctor": False, "steps": [("option", False), ("setter", True), ("option", None, "same")]},
+    {"exp": "qst-2-F", "ctor": True, "steps": [("option", True), ("option", None, "same"), ("option", None, "equal")]},
 ]
 
 
 def gen_re_qt(ctx, n):
+    """plan steps: (kind, has_w) or (kind, has_w, opt) with opt = same (the SAME option object as the last option step) /
+    equal (a distinct object with the same mode and weights)"""
     rng = ctx.rng
     exps = EXP_QUICK if ctx.quick else EXP_QUICK + EXP_MORE
     plans = [dict(w) for w in WITNESS_RE]
     for i in range(n):
-        L = rng.choice([1, 1, 2])
-        plans.append({"exp": exps[(i * 7 + 3) % len(exps)], "ctor": rng.random() < 0.4,
-                      "steps": [("option" if (t == 0 or rng.random() < 0.6) else "setter", rng.random() < 0.5) for t in range(L)]})
+        L = rng.choice([1, 2, 2, 3])
+        steps = []
+        for t in range(L):
+            if t > 0 and rng.random() < 0.35:
+                steps.append(("option", None, rng.choice(["same", "same", "equal"])))
+            else:
+                steps.append(("option" if (t == 0 or rng.random() < 0.5) else "setter", rng.random() < 0.5))
+        plans.append({"exp": exps[(i * 7 + 3) % len(exps)], "ctor": rng.random() < 0.4, "steps": steps})
     cases = []
     for pl in plans:
         e = get_exp(pl["exp"]); ns, mm = e["ns"], e["m"]
-        steps = []
-        for kind, has_w in pl["steps"]:
+        steps = []; last = None; next_oid = 0
+        for pst in pl["steps"]:
+            kind, has_w = pst[0], pst[1]
+            opt = pst[2] if len(pst) > 2 else "new"
             st = gen_step(rng, e, 0)
-            steps.append({"kind": kind, "nd": st["nd"], "q": st["q"], "w": [dy(rng, 1, 40, 8) for _ in range(ns)] if has_w else None})
+            d = {"kind": kind, "nd": st["nd"], "q": st["q"], "opt": "new", "oid": -1}
+            if kind == "option" and opt in ("same", "equal") and last is not None:
+                d["w"] = None if last["w"] is None else list(last["w"]); d["opt"] = opt
+                if opt == "same":
+                    d["oid"] = last["oid"]
+                else:
+                    d["oid"] = next_oid; next_oid += 1
+            else:
+                d["w"] = [dy(rng, 1, 40, 8) for _ in range(ns)] if has_w else None
+                if kind == "option":
+                    d["oid"] = next_oid; next_oid += 1
+            if kind == "option":
+                last = d
+            steps.append(d)
         cases.append({"exp": pl["exp"], "ctor_w": [dy(rng, 1, 40, 8) for _ in range(ns)] if pl["ctor"] else None, "steps": steps,
                       "v": rand_point(rng, e, rng.random() < 0.35), "h": [dy(rng, -1, 1, 16) for _ in range(e["nv"])]})
     return cases
